@@ -29,8 +29,10 @@ CLAIMED = {
             "with scipy least_squares as a contract stub (scipy's ValueErrors for infeasible starts; otherwise any "
             "point within the bounds): z3 decides that the start handed to the optimiser is feasible (no exception), "
             "class, parameter ranges, symmetry-fixed coordinates, wrapping into the box, image untouched, and that the "
-            "returned droplet carries exactly the optimiser's result. 'Never worsens the fit' is the contract's own "
-            "clause; convergence / 'unchanged up to tolerance' are not decided", "§4 C04"),
+            "returned droplet carries exactly the optimiser's result - also for unconverged runs and when the residual "
+            "closure is evaluated again after the returned iterate - and that the loss handed to the optimiser is the "
+            "squared deviation. 'Never worsens the fit' is then the contract's own clause (float replays measure the "
+            "squared deviation on the real package); convergence / 'unchanged up to tolerance' are not decided", "§4 C04"),
     "C06": ("bounded symbolic execution of DropletTrackList.from_emulsion_time_course on time courses of <=3 frames x "
             "<=2 droplets (thorough: 3 droplets / 4 frames), 1D/2D, with and without periodic grid, both methods; "
             "positions, radii, times and cut-off symbolic; partition, copy-independence, consecutive-frame and "
@@ -59,8 +61,10 @@ CLAIMED = {
             "volume (2D) / volume_approx / surface_area (zero amplitudes) of the three perturbed classes at symbolic "
             "angles, radius, centre and amplitudes, harmonics and trig as symbols; first-order agreement decided by "
             "symbolic differentiation of the executed term at zero amplitudes (value and every coefficient, all modes "
-            "present); mode-index round trips l<=40; real-harmonic definition. Not decided: exact 3D volume (dblquad), "
-            "2D perimeter quadrature for non-zero amplitudes, stored sphere triangulations", "§4 C13"),
+            "present); exact 3D volume = integral of r^3 sin(theta)/3 over the sphere for 1-6 (thorough 8) symbolic "
+            "amplitudes with dblquad modelled as the exact integral (table of exact harmonic integrals); mode-index "
+            "round trips l<=40; real-harmonic definition. Not decided: QUADPACK's numerical error, 2D perimeter "
+            "quadrature for non-zero amplitudes, stored sphere triangulations", "§4 C13"),
     "C14": ("bounded symbolic execution of DropletTracker.handle/finalize vs EmulsionTimeCourse.from_storage over <=3 "
             "frames with locate_droplets as an uninterpreted function of all its arguments, symbolic times / "
             "threshold / minimal radius, option sets enumerated; file round trip through the store model; "
@@ -87,11 +91,13 @@ CLAIMED = {
             "first maximiser of the between-class variance, invariance under positive affine maps, filter = radius > "
             "minimal radius before and after (contract-stubbed) refinement", "§4 C18"),
     "C19": ("bounded symbolic execution of locate_droplets (class selection, from_droplet, refine_droplet promotion, "
-            "Emulsion dtype bookkeeping) over 7 grid families x modes 0-3 x width {unset, 0, symbolic} x refine; "
+            "Emulsion dtype bookkeeping) over 7 grid families x modes 0-3 x width {unset, 0, symbolic} x refine, plus "
+            "refinement of candidates of any size up to covering every cell; "
             "binary-image locator replaced by symbolic candidates, least_squares by a contract stub; z3/rewriter "
             "decide class table, amplitude count, carried width/radius/position, common layout", "§4 C19"),
     "C20": ("bounded symbolic execution of Emulsion / EmulsionTimeCourse / DropletTrack / DropletTrackList under "
-            "every sequence of 2-3 operations (12 / 7 / 4 operations; third operation a solver-chosen index) with "
+            "every sequence of 2-3 operations (12 / 8 / 4 operations; third operation a solver-chosen index) and every "
+            "ordered pair of 13 droplet layouts inserted with force_consistency=True through four routes, with "
             "all droplet parameters, times and thresholds symbolic; after every step content = list model, "
             "aliasing probe on caller-held droplets, sources of copies/slices unchanged, summary queries = "
             "definitions and order independence; decided by z3 / the rewriter", "§4 C20"),
